@@ -80,7 +80,7 @@ class SolverIR:
             s2 = st.copy()
             writes = self_field_writes(self.model, recv.cls, f.attr)
             s2.heap = {k: v for k, v in s2.heap.items() if not (k[0] == 'self' and k[1] in writes)}
-            s2.effects = s2.effects + (('call', 'self', f.attr, args, kwargs, n.lineno),)
+            s2.effects = s2.effects + (('call', 'self', f.attr, args, kwargs, n.lineno, ('@g', len(s2.guards))),)
             return [(s2, NoneV())]
         return None
 
@@ -196,14 +196,21 @@ class SolverIR:
         else:
             r = self._seq_iter(it, st, frame)
             if r is None:
-                raise CannotDecide(f'loop over `{ast.unparse(node.iter)[:60]}` at line {node.lineno} is outside the '
-                                   f'recognised idioms')
+                # iteration over an opaque collection (dict keys, a list of names): one symbolic element
+                if not isinstance(node.target, ast.Name):
+                    raise CannotDecide(f'loop over `{ast.unparse(node.iter)[:60]}` at line {node.lineno} is outside the '
+                                       f'recognised idioms')
+                L.kind = 'each'
+                L.var = node.target.id
+                env_binds[L.var] = Unk(f'each<{ast.unparse(node.iter)[:60]}>')
+                r = ((Rat.const(0), Rat.const(0)), None)
             (a, b), base = r
-            L.kind, L.start, L.stop, L.step = 'index', a, b, Rat.const(1)
-            if not isinstance(node.target, ast.Name):
-                raise CannotDecide('loop target')
-            L.var = node.target.id
-            env_binds[L.var] = self.elem(base, idx_atom)
+            if L.kind != 'each':
+                L.kind, L.start, L.stop, L.step = 'index', a, b, Rat.const(1)
+                if not isinstance(node.target, ast.Name):
+                    raise CannotDecide('loop target')
+                L.var = node.target.id
+                env_binds[L.var] = self.elem(base, idx_atom)
         if rev:
             if L.kind != 'index':
                 raise CannotDecide('reversed of a non-index loop')
@@ -257,7 +264,7 @@ class SolverIR:
             L.paths.append(LoopPath(tuple(o.state.guards), tuple(o.state.effects), ex, carried))
         self.loops[lid] = L
         out = st.copy()
-        out.effects = out.effects + (('loop', L),)
+        out.effects = out.effects + (('loop', L, ('@g', len(out.guards))),)
         out.heap = {k: v for k, v in out.heap.items() if '[' not in k[0]}
         for nme, init in L.carries.items():
             folded = _carry_like(init, f'fold{lid}:{nme}')
